@@ -130,22 +130,22 @@ structure PState where
   tzname : Option (List Char) := none
   deriving DecidableEq, Repr, Inhabited
 
-/-- what `_parse_rfc` sees of `rrule.rrulestr("\n".join(lines), compatible=True, ignoretz=True, cache=True)`:
-    the call may raise; of the rule set it returns the code reads only the `_interval` of every member of
-    `rr._rrule + rr._exrule` (the check added by fix D-C17-bad-rrule).  The recurrence itself is C13 ∘ C01. -/
+/-- what `_parse_rfc` sees of `rrule.rrulestr("\n".join(lines), compatible=True, ignoretz=True, cache=True)`: the call may
+    raise (a malformed rule; since fix D-C01-interval also a rule whose INTERVAL is below 1, which used to load and then made every
+    lookup spin forever); nothing of the rule set it returns is read by `_parse_rfc` (the list is the `_interval`s of its rules,
+    kept for the translator's representation of the object).  The recurrence itself is C13 ∘ C01. -/
 abbrev RRuleLib := List (List Char) → Py.R (List Int)
 
 /-- the library that accepts every group of lines (the driver's `ical.parse`: the harness asks the real
     `rrulestr` about the groups afterwards, see `rruleCalls`) -/
 def acceptAll : RRuleLib := fun _ => .ok []
 
-/-- `rr = rrulestr(lines)` (only when there are lines) followed by the interval check: a component rule whose
-    interval is below 1 never advances (D-C17-bad-rrule) -/
+/-- `rr = rrulestr(lines)`, called only when there are lines -/
 def compRules (lib : RRuleLib) (lines : List (List Char)) : Py.R Unit :=
   if lines.isEmpty then .ok () else
   match lib lines with
   | .error e => .error e
-  | .ok ivs => if ivs.all (fun i => decide (1 ≤ i)) then .ok () else .error .ValueError
+  | .ok _ => .ok ()
 
 def lit (x : String) : List Char := x.toList
 
